@@ -198,6 +198,11 @@ def single_assignments(fn: ast.AST) -> Dict[str, ast.AST]:
             for t in n.targets:
                 if isinstance(t, ast.Name):
                     targets.append((t.id, n.value))
+                elif isinstance(t, (ast.Tuple, ast.List)) and isinstance(n.value, (ast.Tuple, ast.List)) and len(t.elts) == len(n.value.elts) \
+                        and all(isinstance(e, ast.Name) for e in t.elts) and not any(isinstance(e, ast.Starred) for e in n.value.elts):
+                    # a, b = E1, E2 binds each name to its own expression
+                    for e, v in zip(t.elts, n.value.elts):
+                        targets.append((e.id, v))
                 else:
                     for sub in ast.walk(t):
                         if isinstance(sub, ast.Name):
@@ -691,10 +696,96 @@ def private_helper_owners(repo, accepted: set) -> set:
             sites = []
             for m2, q2, f2 in funcs:
                 for c in walk_shallow(f2):
-                    if isinstance(c, ast.Call) and ((isinstance(c.func, ast.Attribute) and c.func.attr == name)
-                                                    or (isinstance(c.func, ast.Name) and c.func.id == name)):
+                    # a call, or any other use of the helper as a value (passed to map / partial, stored, ...)
+                    if (isinstance(c, ast.Attribute) and c.attr == name and isinstance(c.ctx, ast.Load)) \
+                            or (isinstance(c, ast.Name) and c.id == name and isinstance(c.ctx, ast.Load)):
                         sites.append(q2)
             if sites and all(s_ in owners for s_ in sites):
                 owners.add(qual)
                 changed = True
     return owners
+
+
+def reachable_private(repo, qual: str, depth: int = 3):
+    """The (possibly inherited) definition of `qual` and the private helpers - methods of its class or of a base, module-level
+    functions - it reaches through `self._x(...)` / `_x(...)`, transitively: [(qualified name, FunctionDef)]."""
+    out, seen = [], set()
+    module = qual.split(".")[0]
+    cls_qual = qual.rsplit(".", 1)[0]
+
+    def visit(q, d):
+        if q in seen or not repo.has(q):
+            return
+        seen.add(q)
+        fn = repo.lookup(q)
+        if not isinstance(fn, (ast.FunctionDef, ast.AsyncFunctionDef)):
+            return
+        out.append((q, fn))
+        if d >= depth:
+            return
+        for n in ast.walk(fn):
+            name = None
+            if isinstance(n, ast.Attribute) and isinstance(n.value, ast.Name) and n.attr.startswith("_") and not n.attr.startswith("__"):
+                name = n.attr
+                cand = [f"{cls_qual}.{name}"]
+            elif isinstance(n, ast.Name) and isinstance(n.ctx, ast.Load) and n.id.startswith("_") and not n.id.startswith("__"):
+                name = n.id
+                cand = [f"{module}.{name}"]
+            if name:
+                for c in cand:
+                    visit(c, d + 1)
+    visit(qual, 0)
+    return out
+
+
+def reaching_assignment(fn: ast.AST, use: ast.AST, name: str):
+    """The expression `name` is bound to where `use` is evaluated, when one assignment statement dominates the use: the nearest
+    preceding `name = E` (or `a, name = E1, E2`) in the statement list of the use or of an enclosing statement; assignments
+    inside an earlier branch that always leaves (return / raise / continue / break) do not reach.  None if undecided."""
+    parents = {}
+    for n in ast.walk(fn):
+        for ch in ast.iter_child_nodes(n):
+            parents[id(ch)] = n
+
+    def binds(st):
+        """value if the statement binds `name` by a plain (or parallel tuple) assignment, False if it cannot bind it,
+        None if it may bind it in a way we do not follow."""
+        if isinstance(st, ast.Assign):
+            hit = None
+            for t in st.targets:
+                if isinstance(t, ast.Name) and t.id == name:
+                    hit = st.value
+                elif isinstance(t, (ast.Tuple, ast.List)) and any(isinstance(x, ast.Name) and x.id == name for x in ast.walk(t)):
+                    if isinstance(st.value, (ast.Tuple, ast.List)) and len(t.elts) == len(st.value.elts) and all(isinstance(e, ast.Name) for e in t.elts):
+                        hit = st.value.elts[[e.id for e in t.elts].index(name)]
+                    else:
+                        return None
+            return hit if hit is not None else False
+        stores = any(isinstance(x, ast.Name) and x.id == name and isinstance(x.ctx, (ast.Store, ast.Del)) for x in ast.walk(st))
+        if not stores:
+            return False
+        if isinstance(st, (ast.If, ast.For, ast.While, ast.Try, ast.With)):
+            # a compound statement binding the name: harmless if every block that binds it always leaves
+            blocks = [getattr(st, f, []) for f in ("body", "orelse", "finalbody")] + [h.body for h in getattr(st, "handlers", [])]
+            for b in blocks:
+                if any(isinstance(x, ast.Name) and x.id == name and isinstance(x.ctx, ast.Store) for s_ in b for x in ast.walk(s_)):
+                    if not (b and isinstance(b[-1], (ast.Return, ast.Raise, ast.Continue, ast.Break))):
+                        return None
+            return False
+        return None
+
+    node = use
+    while id(node) in parents:
+        parent = parents[id(node)]
+        for fld in ("body", "orelse", "finalbody"):
+            lst = getattr(parent, fld, None)
+            if isinstance(lst, list) and any(x is node for x in lst):
+                i = next(k for k, x in enumerate(lst) if x is node)
+                for st in reversed(lst[:i]):
+                    b = binds(st)
+                    if b is None:
+                        return None
+                    if b is not False:
+                        return b
+        node = parent
+    return None
